@@ -532,6 +532,72 @@ def compaction_prefixes(ctx, tool, sc, idx, step=1):
     return obs
 
 
+def fsize_stream(ctx, tool, sc, idx, step=1):
+    """REAL partial writes: the victim phase runs under RLIMIT_FSIZE = K (crash helper, 4th argument), so the kernel itself cuts the
+    write(2) that would take a file past K bytes and the process dies there; K sweeps 1 .. (largest file of the uninterrupted run) + 1.
+    Unlike byte_prefixes nothing is synthesized: whatever the store's open flags / offsets make of the write is what survives
+    (an Update that does not append but overwrites leaves prefix(new) + tail(old))."""
+    base = os.path.join(ctx.scratch, "c07f-%d" % idx)
+    os.makedirs(base, exist_ok=True)
+    scf = os.path.join(base, "sc.json")
+    json.dump(sc, open(scf, "w"))
+    snap, ref, work = os.path.join(base, "snap"), os.path.join(base, "ref"), os.path.join(base, "d")
+    os.makedirs(snap)
+    rc, out, err = sh([tool, "run", snap, scf, "prior"])
+    if rc != 0:
+        ctx.fail("correspondence", "crash helper failed in the prior phase", {"scenario": sc["name"], "err": err[-800:]})
+        return []
+    restore(snap, ref)
+    rc, out, err = sh([tool, "run", ref, scf, "victim"])
+    if rc != 0 or len(acks(out)) != len(sc["victim"]):
+        ctx.fail("correspondence", "uninterrupted victim phase did not acknowledge every op", {"scenario": sc["name"], "out": out[-500:]})
+        return []
+
+    def sizes(d):
+        return sorted(os.path.getsize(os.path.join(r, f)) for r, _, fs in os.walk(d) for f in fs)
+    marks = set(sizes(snap) + sizes(ref))
+    top = max(max(marks) + 1, int(sc.get("fsize_top", 0)))   # fsize_top: for files that are gone again at the end (compaction)
+    ks = set(range(1, top + 1, step))
+    for m in marks:
+        for dlt in (-1, 0, 1, 2, 4095, 4096, 4097):
+            ks.add(m + dlt)
+    obs = []
+    for k in sorted(x for x in ks if 1 <= x <= top):
+        restore(snap, work)
+        rc, out, err = sh([tool, "run", work, scf, "victim", str(k)])
+        na = len(acks(out))
+        rc2, dout, err2 = sh([tool, "dump", work, scf])
+        try:
+            d = json.loads(dout)
+        except Exception:
+            ctx.fail("correspondence", "dump after a run under RLIMIT_FSIZE failed", {"scenario": sc["name"], "kill": ["fsize", k], "err": err2[-500:]})
+            continue
+        obs.append({"sc": sc, "kill": ["fsize", k], "n_acked": na, "dump": d, "loc": work,
+                    "sysc": "write(2) cut by RLIMIT_FSIZE=%d" % k, "killed": rc != 0})
+    return obs
+
+
+def fsize_scenarios(tier):
+    S = [
+        # a big update (two write(2)s: 4401 bytes + newline) of the OLDER of two completed, compacted runs
+        {"name": "fsize-update-big", "names": [A, B], "reqs": [R1[1], R2[1], R3[1]],
+         "prior": run_ops(A, *R1, [1]) + run_ops(A, *R2, [2]) + run_ops(B, *R3, [3]),
+         "victim": [op("update", d=A, req=R1[1], tag=7, big=True)], "after": [], "fsize": 37},
+        # small updates of a completed run whose compacted line is big, then of the newest run
+        {"name": "fsize-update-small", "names": [A], "reqs": [R1[1], R2[1]],
+         "prior": run_ops(A, *R1, [1], big=(1,)) + run_ops(A, *R2, [2]),
+         "victim": [op("update", d=A, req=R1[1], tag=7), op("update", d=A, req=R2[1], tag=8), op("update", d=A, req=R2[1], tag=9)], "after": [], "fsize": 41},
+        # a whole run: real partial writes of Write (small and big) next to a completed run
+        {"name": "fsize-run", "names": [A], "reqs": [R1[1], R2[1]],
+         "prior": run_ops(A, *R1, [1]),
+         "victim": run_ops(A, *R2, [2, 3, 4], big=(3,)), "after": [], "fsize": 43, "fsize_top": 4900},
+    ]
+    if tier == "thorough":
+        for s in S:
+            s["fsize"] = 5
+    return S
+
+
 def check_after(o):
     """F7c: an update acknowledged after the crash must be what find returns"""
     sc = o["sc"]
@@ -617,6 +683,19 @@ def run(ctx, replay_cases=None):
             nm = o["sysc"].split("(")[0]
             ctx.cov["syscalls_hit"][nm] = ctx.cov["syscalls_hit"].get(nm, 0) + 1
     evaluate(ctx, all_obs, "k")
+    # real partial writes under RLIMIT_FSIZE (also for replayed scenarios that came from this stream)
+    fscs = [x for x in scs if x.get("fsize")] if replay_cases is not None else fsize_scenarios(ctx.tier)
+    if fscs:
+        def fone(t):
+            i, sc = t
+            return fsize_stream(ctx, tool, sc, i, int(sc["fsize"]))
+        with ThreadPoolExecutor(max_workers=8) as ex:
+            fres = list(ex.map(fone, enumerate(fscs)))
+        fobs = []
+        for sc, o in zip(fscs, fres):
+            ctx.cov["kill_points"][sc["name"]] = {"rlimit_fsize_values": len(o), "died_inside_a_write": sum(1 for x in o if x.get("killed"))}
+            fobs += o
+        evaluate(ctx, fobs, "f")
     # byte-granular torn tails of a write and of an update (+ F7c: an update acknowledged after the torn write)
     if replay_cases is None:
         step = 23 if ctx.tier == "quick" else 1
@@ -648,7 +727,8 @@ def run(ctx, replay_cases=None):
     ctx.cov["distinct_nontrivial"] = len(st)
     ctx.cov["distinct_model_crash_states_hit"] = len(ms)
     ctx.cov["rule"] = ("a case = (scenario, kill point): the real jsondb is SIGKILLed on entering the k-th system call of the victim phase (every openat/write/"
-                       "unlinkat/renameat/mkdirat/fsync/close the store thread issues, strace fault injection) or its last append is cut at a byte; then a "
+                       "unlinkat/renameat/mkdirat/fsync/close the store thread issues, strace fault injection), or its last append is cut at a byte, or it runs "
+                       "under RLIMIT_FSIZE=K so that the kernel cuts the write(2) itself (real partial write, K swept over the file sizes); then a "
                        "fresh process dumps the directory and asks find/latest/recent; distinct = distinct (scenario, acknowledged ops, surviving "
                        "directory content); non-trivial = all (every case has a prior history or an operation in progress)")
     ctx.cov["trusted_base"] += [
